@@ -588,6 +588,8 @@ package ctfe
 //@ at ms assert [encodes-that-sct] typeof(ms.val) == ct.SignedCertificateTimestamp && as(ms.val, ct.SignedCertificateTimestamp) == *bs.res0
 //@ at iss assert [records-the-encoded-sct] iss.arg1 == ms.res0
 //@ at wr assert [responds-with-that-sct] wr.sct == bs.res0 && wr.signer == li.signer
+//@ dead return#6
+//@ note return#6 (rsp == nil after a nil error) is unreachable under the gRPC stub contract
 
 //@ func addChain
 //@ props C01 C08
